@@ -74,6 +74,7 @@ func genGroup(r *hk.Rand) *group {
 			sh.Body = hk.Pick(r, bodies)
 		}
 		p.After, p.Reexec, p.Wrap = nil, nil, base.Wrap
+		p.CtxVia = "" // the options are probed through the request's context before anything is sent
 		p.ClientOps = append([]rop{}, clientOps...)
 		own := 410 + m
 		p.ReqOps = nil
